@@ -766,9 +766,100 @@ def _mentions_any(fn, names):
     return any(_self_attr(n) in names for n in ast.walk(fn) if isinstance(n, ast.Attribute))
 
 
+# ================================================================================================ choice of the secret's source
+# calls that look at / read the file system: a guard that depends on one of them makes "what lies around in the
+# output / search path" decide whether a new secret is drawn
+FS_PROBES = {"find_file", "find_first", "find_dir", "exists", "isfile", "isdir", "is_file", "is_dir", "glob", "iglob", "listdir", "scandir",
+             "access", "stat", "lstat", "load_binary", "load_text", "load_file", "load_configuration", "open", "read_bytes", "read_text"}
+FILE_LOADERS = {"load_binary", "load_text", "load_file", "load_configuration", "open", "read_bytes", "read_text", "load_secret"}
+
+
+def _tname(t):
+    if isinstance(t, ast.Name):
+        return t.id
+    a = _self_attr(t)
+    return ("self." + a) if a else None
+
+
+def _assigned_in(stmts):
+    """name -> list of value expressions assigned anywhere in the statements"""
+    out = {}
+    for st in stmts:
+        for n in ast.walk(st):
+            if isinstance(n, ast.stmt):
+                targets, value = _assign_targets(n)
+                for t in targets:
+                    for tt in (t.elts if isinstance(t, (ast.Tuple, ast.List)) else [t]):
+                        nm = _tname(tt)
+                        if nm and value is not None:
+                            out.setdefault(nm, []).append(value)
+    return out
+
+
+def _call_names(expr, defs, seen=None, depth=0):
+    """names of the functions called in `expr`, following local names to their definitions"""
+    seen = seen if seen is not None else set()
+    out = set()
+    for n in ast.walk(expr):
+        if isinstance(n, ast.Call):
+            f = n.func
+            out.add(f.attr if isinstance(f, ast.Attribute) else (f.id if isinstance(f, ast.Name) else "?"))
+        nm = _tname(n) if isinstance(n, (ast.Name, ast.Attribute)) else None
+        if nm and nm in defs and nm not in seen and depth < 6:
+            seen.add(nm)
+            for v in defs[nm]:
+                out |= _call_names(v, defs, seen, depth + 1)
+    return out
+
+
+def analyse_sources():
+    """Every draw that is one of several alternative sources of the same variable (`if g: x = <other> else: x = draw()`,
+    `x = a if g else draw()`): does the guard probe the file system, does the alternative read a file."""
+    w, _sites, _stats = analyse()
+    rows = []
+    for m in sorted(w.mods.values(), key=lambda x: x.rel):
+        for qual, fn in sorted(m.funcs.items()):
+            if not any(id(n) in w.direct_nodes for n in ast.walk(fn) if isinstance(n, ast.Call)):
+                continue
+            defs = _assigned_in(fn.body)
+
+            def has_draw(e):
+                return any(isinstance(n, ast.Call) and id(n) in w.direct_nodes for n in ast.walk(e))
+
+            def add(var, line, test, alt_values):
+                calls = _call_names(test, defs)
+                alt_calls = set()
+                for v in alt_values:
+                    alt_calls |= _call_names(v, defs, {var})
+                rows.append(dict(kind=kind_of(m.rel), scope=qual, var=var.replace("self.", "").lstrip("_"), loc=f"{m.rel}:{line}",
+                                 guardFs=bool(calls & FS_PROBES), altFile=bool(alt_calls & FILE_LOADERS),
+                                 test=ast.unparse(test)[:80]))
+
+            for node in ast.walk(fn):
+                if isinstance(node, ast.If):
+                    a_body, a_else = _assigned_in(node.body), _assigned_in(node.orelse)
+                    for mine, other in ((a_body, a_else), (a_else, a_body)):
+                        for var, vals in mine.items():
+                            for v in vals:
+                                if has_draw(v) and not isinstance(v, ast.IfExp) and var in other:
+                                    add(var, v.lineno, node.test, other[var])
+                elif isinstance(node, ast.stmt):
+                    targets, value = _assign_targets(node)
+                    if isinstance(value, ast.IfExp) and targets:
+                        var = _tname(targets[0])
+                        for mine, other in ((value.body, value.orelse), (value.orelse, value.body)):
+                            if var and has_draw(mine) and not has_draw(other):
+                                add(var, mine.lineno, value.test, [other])
+    uniq = {}
+    for r in rows:
+        uniq.setdefault((r["loc"], r["var"]), r)
+    return [uniq[k] for k in sorted(uniq)]
+
+
 def gen_SecretState() -> None:
     rows = analyse_state()
-    out = ["import SpsdkVerif.Model.FreshObj", "", "namespace SpsdkVerif.Generated", "open SpsdkVerif.Fresh", "",
+    srcs = analyse_sources()
+    out = ["import SpsdkVerif.Model.FreshObj", "import SpsdkVerif.Model.FreshFile", "", "namespace SpsdkVerif.Generated", "open SpsdkVerif.Fresh", "",
            "/-- every method that writes an attribute holding a self-chosen secret: role and whether every normal path (re)sets it -/",
            "def secretSlots : List SlotPath := ["]
     out.append(",\n".join("  { kind := .%s, cls := %s, slot := %s, method := %s, role := .%s, resets := %s, direct := %s, loc := %s }" % (
@@ -777,8 +868,15 @@ def gen_SecretState() -> None:
         for r in rows))
     out.append("]")
     out.append("")
+    out.append("/-- every draw that is one of several alternative sources of a variable: what decides between them -/")
+    out.append("def secretSources : List SourceChoice := [")
+    out.append(",\n".join("  { kind := .%s, scope := %s, var := %s, loc := %s, guard := .%s, altFile := %s, test := %s }" % (
+        r["kind"], lean_str(r["scope"]), lean_str(r["var"]), lean_str(r["loc"]), "fileExists" if r["guardFs"] else "flag",
+        "true" if r["altFile"] else "false", lean_str(r["test"])) for r in srcs))
+    out.append("]")
+    out.append("")
     out.append("end SpsdkVerif.Generated")
-    emit("SecretState", "\n".join(out) + "\n", {"slots": rows, "by_role": {k: sum(1 for r in rows if r["role"] == k) for k in ("init", "getter", "lazy", "respec", "other")}})
+    emit("SecretState", "\n".join(out) + "\n", {"slots": rows, "sources": srcs, "by_role": {k: sum(1 for r in rows if r["role"] == k) for k in ("init", "getter", "lazy", "respec", "other")}})
 
 
 GENERATORS = {"SecretSites": gen_SecretSites, "SecretState": gen_SecretState}
